@@ -19,7 +19,8 @@ TRUSTED = [
     "modelled, not verified: Pygments lexers (contract checked per input, see C16)",
 ]
 ASSUMPTIONS = ["token positions strictly increasing and tokens non-empty (provided by C16 under the lexer contract)"]
-regen = C15.regen
+import regen_all
+regen = regen_all.patterns_and_logic
 REGRESS = [("Python", 'def f():\n    """doc\n    more\n    """\n'),            # F13: multi-line last token
            ("Python", "def f():\n    x = '''a\nb'''\n"),
            ("JavaScript", "function f() {\n  return `a\nb`}\n"),
